@@ -151,7 +151,10 @@ def run_case(spec):
             raise Violation(f"{what}: shape {got.shape} != {np.asarray(want).shape}")
         scale = max(1.0, float(np.abs(want).max(initial=0)))
         err = float(np.abs(got - want).max(initial=0))
-        if not err <= (1e-6 if low_precision else 2e-11) * scale:
+        # (orthonormal / nearly orthonormal vector sets are perfectly conditioned: tight tolerance; general biorthogonal
+        # sets amplify rounding by (|R| |L|) per projector factor of the expression: 1e-8 as before)
+        tight = mode in ("hermitian", "hermitian_same_object", "near_hermitian")
+        if not err <= (1e-6 if low_precision else 2e-11 if tight else 1e-8) * scale:
             raise Violation(f"{what}: differs from the dense expression by {err:.3e} (scale {scale:.3g}); mode={mode}, complex={cplx}")
         counters["comparisons"] += 1
 
